@@ -149,8 +149,10 @@ def run_property(pid: str, tier: str, repo: str, rules_fn: Callable[[Ctx], None]
     counts: Dict[str, int] = {}
     for o in obs:
         counts[o.rule] = counts.get(o.rule, 0) + 1
+    failing_rules = {o.rule for o in obs if not o.ok}
     for rid, floor in ctx.floors.items():
-        if rid.startswith(pid + ".") and counts.get(rid, 0) < floor:
+        # the floor guards against VACUOUS passes; a rule that already reports a failing instance is not vacuous
+        if rid.startswith(pid + ".") and counts.get(rid, 0) < floor and rid not in failing_rules:
             raise AnalysisError(f"rule {rid} matched {counts.get(rid, 0)} instance(s), fewer than the "
                                 f"{floor} confirmed by hand - anchors moved; the rule would pass vacuously")
     known = load_known()
